@@ -391,9 +391,51 @@ Proof. vm_compute. repeat split. Qed.
 
 (* -- every case kind at once -- *)
 (* on ANY case (any kind, input, observation): if code 1 is absent - the implementation did what the model does - no code at all
-   is produced. The specification-level monitors (code 2) never alarm on behaviour the model allows; "agrees with the model on
+   is produced. The specification-level monitors (code 2) never alarm on behaviour the model allows (modelled c: every kind
+   but the effect observations of the open endpoints, which are judged by the hand-written effect table alone, code 10); "agrees with the model on
    this input" implies "satisfies every monitored clause on this input". No guard. *)
-Theorem agreement_implies_no_alarm c :
+Theorem agreement_implies_no_alarm c : modelled c = true ->
   (forall x, In x (check_case c) -> snd (fst x) <> 1%N) -> check_case c = [].
 Proof. exact (agreement_no_alarm_l c). Qed.
 Print Assumptions agreement_implies_no_alarm.
+
+(* ---- what the open endpoints DO when an untrusted peer calls them (Model/C07_Spec.v open_effects, monitor code 10) ---- *)
+
+(* The authorization grid sees only who is let in. The endpoints open to everybody (identity, version, join handshake) must in
+   addition not give the caller what the closed endpoints would: the hand-written table of what each open endpoint may cause
+   on the called peer has one row per open endpoint, and no allowed effect drives the IPFS daemon (beyond reading its
+   identity), drives the pin tracker, reads or writes the pinset, writes to consensus other than the join (AddPeer), or runs
+   the informers / publishes metrics *)
+Theorem open_endpoints_effects_spec :
+  map fst open_effects = open_spec /\
+  forallb (fun row => forallb (fun x => negb (effect_forbidden x)) (snd row)) open_effects = true.
+Proof. exact open_effects_spec_l. Qed.
+Print Assumptions open_endpoints_effects_spec.
+
+(* soundness of the monitor: no code 10 on the recorded effects of a call an untrusted remote caller was let in with => every
+   component call it caused is allowed for that endpoint, is in none of the denied classes, and the endpoint is an open one *)
+Theorem effects_monitor_sound id m caller ep effs :
+  (forall x, In x (check_case (id, CEffects m caller ep effs)) -> snd (fst x) <> 10%N) ->
+  caller <> 0%N -> trust_of m caller = false ->
+  forall x, In x effs -> In x (allowed_effects ep) /\ effect_forbidden x = false /\ In ep open_spec.
+Proof. exact (effects_monitor_sound_l id m caller ep effs). Qed.
+Print Assumptions effects_monitor_sound.
+
+(* and it demands nothing more: effects inside the allowed set raise no code *)
+Theorem effects_monitor_complete id m caller ep effs : (forall x, In x effs -> In x (allowed_effects ep)) ->
+  check_case (id, CEffects m caller ep effs) = [].
+Proof. exact (effects_monitor_complete_l id m caller ep effs). Qed.
+Print Assumptions effects_monitor_complete.
+
+(* non-vacuity: the join handshake as it is today passes; the same handshake followed by the informers job (the seeded change:
+   PeerAdd re-publishing the peer's metrics) is rejected for an untrusted caller and not judged for a trusted one *)
+Example effects_monitor_example :
+  let m := MCrdt false [1%N] [] in
+  trust_of m 2%N = false /\ trust_of m 1%N = true /\
+  check_case (0%N, CEffects m 2%N "Cluster.PeerAdd" ["Consensus.AddPeer"; "Callback.Cluster.ID"]) = [] /\
+  check_case (0%N, CEffects m 2%N "Cluster.PeerAdd"
+                ["Consensus.AddPeer"; "Callback.Cluster.ID"; "Informer.GetMetric"; "IPFS.RepoStat"; "Monitor.PublishMetric"]) = [(0, 10, 0)]%N /\
+  check_case (0%N, CEffects m 1%N "Cluster.PeerAdd" ["Consensus.AddPeer"; "Informer.GetMetric"]) = [] /\
+  check_case (0%N, CEffects m 2%N "Cluster.Version" ["IPFS.ID"]) = [(0, 10, 0)]%N /\
+  effect_forbidden "IPFS.RepoStat" = true /\ effect_forbidden "Consensus.State" = true /\ effect_forbidden "IPFS.ID" = false.
+Proof. repeat split; vm_compute; reflexivity. Qed.
